@@ -430,6 +430,20 @@ theorem fortran_lists_have_break_hints :
     Shroud.Gen.LineCfg.fortranListJoins.all (·.2) = true ∧ Shroud.Gen.LineCfg.fortranListJoins.length ≥ 6 := by
   decide +kernel
 
+/-- **table theorem** (regenerated from `statements.fc_statements`): every Fortran executable-statement template of an
+    ARGUMENT entry that carries two or more argument-derived names (`{f_var}`, `{c_var}`, `{c_var_context}`, ...) has a break
+    hint, so it can be continued; result entries are exempt because their names are generated constants -/
+theorem fortran_statement_templates_can_be_continued :
+    Shroud.Gen.LineCfg.fStatementLines.all (fun r => decide (r.2.2.2.1 < 2) || r.2.2.2.2.1 || r.2.2.2.2.2) = true ∧
+    (Shroud.Gen.LineCfg.fStatementLines.filter (fun r => decide (2 ≤ r.2.2.2.1) && r.2.2.2.2.1)).length ≥ 10 := by
+  decide +kernel
+
+/-- **table theorem** (regenerated AST scan of wrapf.py): every `name => specific` binding the Fortran emitter writes
+    (type-bound procedures, type-bound generics) can be continued after the arrow -/
+theorem fortran_bindings_can_be_continued :
+    Shroud.Gen.LineCfg.fortranArrowLiterals.all (·.2) = true ∧ Shroud.Gen.LineCfg.fortranArrowLiterals.length ≥ 6 := by
+  decide +kernel
+
 example : protect "- third;".toList = "@- third;".toList ∧ protect "#if X +".toList = "#if X +".toList ∧
     protect "a = b +".toList = "@a = b +".toList ∧ protect "plain".toList = "plain".toList := by decide
 
